@@ -21,6 +21,7 @@ import (
 
 const (
 	watchdog = 5 * time.Second // DESIGN.md Appendix B: "bounded time" = 5 s
+	gateWait = 3 * time.Second // a modelled copier step must arrive at its gate within this (limiter waits are <= 2 s)
 	copyBuf  = 32 * 1024       // constants.CopyBufferSize
 )
 
@@ -147,6 +148,7 @@ type fakeConn struct {
 	failed bool     // the connection broke: reads and writes fail, `in` is gone
 	closed bool     // Close() was called on the server side (the bridge's doing): the end observes closure
 	rWait  int      // Read calls currently parked on this connection
+	rSeen  bool     // the bridge has called Read on this connection at least once
 	closeT time.Time
 }
 
@@ -165,6 +167,7 @@ func (c *fakeConn) Read(p []byte) (int, error) {
 	w, e := c.w, c.e
 	w.mu.Lock()
 	defer w.mu.Unlock()
+	c.rSeen = true
 	for {
 		if c.closed {
 			return 0, errClosed
@@ -345,8 +348,9 @@ type beh struct {
 	Via   string `json:"via"`   // conn | stream
 	FinE  string `json:"fin_e"` // ending chosen by the driver when the script has none
 	FinK  string `json:"fin_k"`
-	Drain bool   `json:"drain"` // free mode: wait for quiescence before the scripted ending
-	Big   int    `json:"big"`   // real size of class "big"
+	Drain bool   `json:"drain"`           // free mode: wait for quiescence before the scripted ending
+	Big   int    `json:"big"`             // real size of class "big"
+	Loops int    `json:"loops,omitempty"` // a racy free-running script is executed this many times (the last run is recorded)
 }
 
 type run struct {
@@ -392,12 +396,12 @@ func (r *run) poll(d time.Duration, pred func() bool) bool {
 	}
 }
 
+// bridgeGone: the bridge closed the current connection of an end (a replaced connection that gets
+// closed does not count: that is not the end of the tunnel). The caller holds w.mu.
 func (r *run) bridgeGone() bool {
 	for _, e := range r.w.ends {
-		for _, c := range e.conns {
-			if c.closed {
-				return true
-			}
+		if len(e.conns) > 0 && e.cur().closed {
+			return true
 		}
 	}
 	return false
@@ -471,6 +475,9 @@ func (r *run) drain() {
 		} else if why == "" && time.Since(lastT) > watchdog {
 			why = "stalled"
 		}
+		if why == "tunnel-closed" && r.checkSpont() {
+			return
+		}
 		if why != "" {
 			r.w.logL(fw.Event{"ev": "Drain", "ok": why == "complete", "why": why})
 			return
@@ -479,8 +486,26 @@ func (r *run) drain() {
 	}
 }
 
+// checkSpont notices that the bridge closed a connection although no end closed or failed and nobody
+// closed the bridge: the tunnel ended by itself. Recorded as a failed drain (the judge recounts what
+// was outstanding) followed by the pseudo ending "spont", for which closure/forgetting are not judged.
+func (r *run) checkSpont() bool {
+	w := r.w
+	w.mu.Lock()
+	defer w.mu.Unlock()
+	if w.ended != "none" || !r.attached() || !r.bridgeGone() {
+		return false
+	}
+	w.log(fw.Event{"ev": "Drain", "ok": false, "why": "tunnel-closed"})
+	w.markEnded("-", "spont")
+	return true
+}
+
 func (r *run) closeEnd(e, kind string) {
 	w := r.w
+	if e == "T" {
+		r.targetConn()
+	}
 	w.mu.Lock()
 	en := w.ends[e]
 	c := en.cur()
@@ -509,7 +534,7 @@ func (r *run) gate(e string, read bool) {
 	}
 	w.cond.Broadcast()
 	w.mu.Unlock()
-	ok := r.poll(watchdog, func() bool {
+	ok := r.poll(gateWait, func() bool {
 		if r.bridgeGone() {
 			return true
 		}
@@ -527,6 +552,15 @@ func (r *run) gate(e string, read bool) {
 }
 
 func execute(env *fw.Env, b *beh) *fw.Trace {
+	for i := 1; i < b.Loops; i++ {
+		if t := executeOnce(env, b); t.Status != fw.Realised {
+			return t
+		}
+	}
+	return executeOnce(env, b)
+}
+
+func executeOnce(env *fw.Env, b *beh) *fw.Trace {
 	w := newWorld()
 	ctx, cancel := context.WithCancel(context.Background())
 	r := &run{w: w, b: b, ctx: ctx, cancel: cancel}
@@ -606,6 +640,7 @@ func execute(env *fw.Env, b *beh) *fw.Trace {
 			}
 			continue
 		}
+		r.checkSpont()
 		switch st.A {
 		case "send":
 			en := w.ends[st.E]
@@ -648,7 +683,9 @@ func execute(env *fw.Env, b *beh) *fw.Trace {
 			w.mu.Unlock()
 		case "replace":
 			w.mu.Lock()
-			clean := r.attached() || len(w.ends["S"].cur().in) == 0
+			// clean handover: nothing the source wrote on the old connection is still unread there
+			// (bytes in flight on a connection that is given up are nobody's promise)
+			clean := len(w.ends["S"].cur().in) == 0
 			w.mu.Unlock()
 			c, sst := r.newConn("S")
 			tc := session.CreateTunnelConnection("conn-S2", c, sst, srcClient, mappingID, tunnelID)
@@ -678,6 +715,7 @@ func execute(env *fw.Env, b *beh) *fw.Trace {
 
 	// ---- finish: free running from here on -----------------------------------------------------
 	r.ungate()
+	ungateAt := time.Now()
 	if timedOut {
 		ok := r.poll(30*time.Second+watchdog, func() bool { return r.registered() == 0 })
 		w.logL(fw.Event{"ev": "Env", "a": "timeout", "forgot": ok})
@@ -697,15 +735,19 @@ func execute(env *fw.Env, b *beh) *fw.Trace {
 		w.mu.Lock()
 		ended = w.ended
 		w.mu.Unlock()
-		if ended == "none" {
+		if ended == "none" && !r.checkSpont() {
 			r.closeEnd(b.FinE, b.FinK)
 		}
 	}
-	// closure and forgetting are measured from the ending event (or the attach, if that came later)
+	// closure and forgetting are measured from the ending event (or the attach, or the moment a gated
+	// script let the copiers run freely, whichever came last)
 	w.mu.Lock()
 	t0 := w.endedAt
 	if w.attachAt.After(t0) {
 		t0 = w.attachAt
+	}
+	if b.Mode == "gated" && ungateAt.After(t0) {
+		t0 = ungateAt
 	}
 	w.mu.Unlock()
 	deadline := t0.Add(watchdog)
